@@ -20,7 +20,7 @@ from py7zr.io import BytesIOFactory
 # name pool: prefix-free except along '/' boundaries
 POOL = ["a.txt", "b.bin", "d", "d/x", "d/y.txt", "d/sub", "d/sub/z", "e", "e/f", "g", "h.dat", "k/l/m"]
 DIRS = {"d", "d/sub", "e"}
-ABSENT = ["zz", "d/nope", "a.txt.bak", "q/r", "y"]  # never a string prefix of a pool name
+ABSENT = ["zz", "d/nope", "a.txt.bak", "q/r", "y", "", "/"]  # never a string prefix of a pool name; the empty target names nothing
 
 
 def content(name, seed):
@@ -159,7 +159,8 @@ class C09(Check):
                         i += 1
                         if not env.mine(i):
                             continue
-                        t = [names[j] + ("/" if slash and j % 2 == 0 else "") for j in sub] + (["zz"] if (r + len(names)) % 2 else [])
+                        t = [names[j] + ("/" if slash and j % 2 == 0 else "") for j in sub] + (["zz"] if (r + len(names)) % 2 else []) + \
+                            ([["", "/"][i % 2]] if i % 5 == 0 else [])  # an empty target names nothing (also with recursive)
                         yield {"spec": spec, "targets": t, "as_set": as_set, "recursive": recursive, "to": to, "open": "path" if i % 3 else "stream"}
 
     def strategy(self, env):
